@@ -23,13 +23,23 @@ fn run_one(m: &Machine, prior: u64) -> Result<Run, String> {
         for i in 0..8 { p.sim.reg_file[reg(i)].set(m.regs[i as usize]); }
         p.sim.pc = m.pc;
         p.sim.write_mem(0xFFFC, lc3_ensemble::sim::mem::Word::new_init(m.psr), lc3_ensemble::sim::MemAccessCtx::omnipotent()).map_err(|e| format!("machinery: PSR write failed: {e:?}"))?;
-        { let mut q = p.kb.get_buffer().write().unwrap(); q.clear(); q.extend(m.kb.clone().unwrap_or_default()); }
-        p.disp.get_buffer().write().unwrap().clear();
+        { let mut q = p.kb.get_buffer().write().unwrap_or_else(|e| e.into_inner()); q.clear(); q.extend(m.kb.clone().unwrap_or_default()); }
+        p.disp.get_buffer().write().unwrap_or_else(|e| e.into_inner()).clear();
         p
     };
+    if m.strict {
+        // strict mode distinguishes the loaded object file's blocks from the rest of memory: load the program the way a user would
+        let mut words: Vec<u16> = vec![]; let mut a = 0x3000u16;
+        while let Some((_, w)) = m.pokes.iter().rev().find(|(x, _)| *x == a) { words.push(*w); a += 1; }
+        let src = format!(".orig x3000\n{}\n.end", words.iter().map(|w| format!(".fill x{w:04X}")).collect::<Vec<_>>().join("\n"));
+        let obj = lc3_ensemble::asm::assemble(lc3_ensemble::parse::parse_ast(&src).map_err(|e| format!("machinery: {e:?}"))?).map_err(|e| format!("machinery: {e:?}"))?;
+        let pc = p.sim.pc;
+        catch(|| p.sim.load_obj_file(&obj))?.map_err(|e| format!("machinery: load failed: {e:?}"))?;
+        p.sim.pc = pc;
+    }
     let r = catch(|| p.sim.run_with_limit(LIMIT))?;
     let err = match &r { Err(SimErr::AccessViolation) => Some("acv"), Err(SimErr::PrivilegeViolation) => Some("priv"), Err(SimErr::IllegalOpcode) | Err(SimErr::InvalidInstrFormat) => Some("illop"), Err(_) => Some("other"), Ok(()) => None };
-    let display: Vec<u8> = { let g = p.disp.get_buffer().read().unwrap(); g.clone() };
+    let display: Vec<u8> = { let g = p.disp.get_buffer().read().unwrap_or_else(|e| e.into_inner()); g.clone() };
     Ok(Run {
         result: r.map_err(|e| format!("{e:?}")), halted: p.sim.hit_halt(), display,
         regs: (0..8).map(|i| p.sim.reg_file[reg(i)].get()).collect(), user_mem: (0x3000..0xFE00u16).map(|a| p.sim.mem[a].get()).collect(), err,
@@ -101,30 +111,34 @@ fn check_on(m: &Machine, what: &str, prior: u64) -> Result<&'static str, (String
 }
 
 pub fn run(ctx: &Ctx) -> Report {
-    let mut rep = Report::new("every user-mode program of 1-2 (thorough 3) instructions over the 40-word alphabet (I/O traps, subroutine calls, stack manipulation, loads/stores, faults) followed by HALT, plus 30 templates (stack use, nested subroutines saving R7, GETC/OUT/PUTS/PUTSP/IN, jumps and loads into supervisor memory, RTI, reserved opcode; 3 stack pointers), each run with run_with_limit(3000) under virtual and under real traps (and again with ignore_privilege set, which leaves the program in user mode): virtual HALT => same display, R0-R5, all user memory, and hit_halt() under real traps; virtual access/privilege/illegal-instruction error => real run prints the virtual output followed by the OS message for that exception (read from the OS image's symbol table) and halts; runs ending otherwise are counted, not judged. The templates and every 1-instruction (thorough 2-instruction) program are judged again on reused simulators: one that first ran a stack-using program (R6 in user memory) to its HALT under real or under virtual traps and was then reset() (4 prior uses). non-trivial = judged pairs");
+    let mut rep = Report::new("every user-mode program of 1-2 (thorough 3) instructions over the 40-word alphabet (I/O traps, subroutine calls, stack manipulation, loads/stores, faults) followed by HALT, plus 30 templates (stack use, nested subroutines saving R7, GETC/OUT/PUTS/PUTSP/IN, jumps and loads into supervisor memory, RTI, reserved opcode; 3 stack pointers), each run with run_with_limit(3000) under virtual and under real traps (again with ignore_privilege set, which leaves the program in user mode, and again in strict mode with R0-R5 never written, where the OS's own HALT and exception paths must still work): virtual HALT => same display, R0-R5, all user memory, and hit_halt() under real traps; virtual access/privilege/illegal-instruction error => real run prints the virtual output followed by the OS message for that exception (read from the OS image's symbol table) and halts; runs ending otherwise are counted, not judged. The templates and every 1-instruction (thorough 2-instruction) program are judged again on reused simulators: one that first ran a stack-using program (R6 in user memory) to its HALT under real or under virtual traps and was then reset() (4 prior uses). non-trivial = judged pairs");
     let maxlen = ctx.pick(2usize, 3usize);
     for len in 1..=maxlen {
         let n = 40u64.pow(len as u32);
-        let r = sweep(ctx, n * 2, 8, |k, acc| {
-            let (idx, ign) = (k / 2, k % 2);
-            let (m, words) = program_machine(len, idx, ign * 2);
+        let r = sweep(ctx, n * 3, 8, |k, acc| {
+            let (idx, ign) = (k / 3, k % 3);
+            let (mut m, words) = program_machine(len, idx, (ign & 1) * 2);
+            // variant 2: strict mode with R0-R5 never written (strict objections inside the program end the run the same way under both
+            // settings and are not judged; the OS's own exception and HALT paths must work under strict mode too)
+            if ign == 2 { m.strict = true; m.uninit_regs = 0x3F; }
             // under ignore_privilege an RTI executed by the program has no ISA meaning (A10) and can turn it into supervisor code: not a user-mode program any more
             acc.evals += 1; acc.transitions += 2; acc.traces += 1;
-            match check(&m, &format!("program {words:x?} ignore_privilege={}", ign == 1)) {
-                Ok(k) => { acc.count(&format!("ended_{k}"), 1); if k != "unjudged" { acc.nontrivial += 1; } acc.outcomes.insert(fnv_str(k) ^ ign); }
+            match check(&m, &format!("program {words:x?} ignore_privilege={} strict={}", ign == 1, ign == 2)) {
+                Ok(k) => { acc.count(&format!("ended_{k}"), 1); if k != "unjudged" { acc.nontrivial += 1; } acc.outcomes.insert(fnv_str(k) ^ ign); if ign == 2 { acc.count("strict_variant", 1); } }
                 Err((sig, d)) => acc.violation(sig, format!("p:{len}:{idx}:{ign}"), d),
             }
             acc.sample(k, ctx.seed, 997, || format!("program {words:x?} ignore_privilege={}", ign == 1));
         });
         rep.absorb(r);
     }
-    let r = sweep(ctx, 30 * 5, 1, |j, acc| {
+    let r = sweep(ctx, 30 * 6, 1, |j, acc| {
         let (i, prior) = (j % 30, j / 30);
-        let Some(m) = template(i) else { return };
+        let Some(mut m) = template(i) else { return };
+        let prior = if prior == 5 { m.strict = true; m.uninit_regs = 0x3D; 0 } else { prior }; // 6th pass: fresh simulator, strict mode, R0 and R2-R5 never written
         acc.evals += 1; acc.transitions += 2; acc.traces += 1; acc.count(if prior == 0 { "templates" } else { "templates_on_reused_simulator" }, 1);
         match check_on(&m, &format!("template {i}"), prior) {
             Ok(k) => { acc.count(&format!("ended_{k}"), 1); if k != "unjudged" { acc.nontrivial += 1; } }
-            Err((sig, d)) => acc.violation(sig, format!("t:{i}:{prior}"), d),
+            Err((sig, d)) => acc.violation(sig, format!("t:{i}:{}", if m.strict { 5 } else { prior }), d),
         }
     });
     rep.absorb(r);
@@ -148,6 +162,6 @@ pub fn run(ctx: &Ctx) -> Report {
 pub fn replay(case: &str) -> Option<String> {
     let p: Vec<&str> = case.split(':').collect();
     let n = |i: usize| -> Option<u64> { p.get(i)?.parse().ok() };
-    let r = match *p.first()? { "p" => { let (m, w) = program_machine(n(1)? as usize, n(2)?, n(3).unwrap_or(0) * 2); check(&m, &format!("program {w:x?}")) } "t" => check_on(&template(n(1)?)?, "template", n(2).unwrap_or(0)), "r" => { let (m, w) = program_machine(n(1)? as usize, n(2)?, 0); check_on(&m, &format!("program {w:x?}"), n(3)?) } _ => return None };
+    let r = match *p.first()? { "p" => { let v = n(3).unwrap_or(0); let (mut m, w) = program_machine(n(1)? as usize, n(2)?, (v & 1) * 2); if v == 2 { m.strict = true; m.uninit_regs = 0x3F; } check(&m, &format!("program {w:x?}")) } "t" => { let mut m = template(n(1)?)?; let mut prior = n(2).unwrap_or(0); if prior == 5 { m.strict = true; m.uninit_regs = 0x3D; prior = 0; } check_on(&m, "template", prior) } "r" => { let (m, w) = program_machine(n(1)? as usize, n(2)?, 0); check_on(&m, &format!("program {w:x?}"), n(3)?) } _ => return None };
     r.err().map(|(s, d)| format!("[{s}] {d}"))
 }
